@@ -211,7 +211,7 @@ def main():
         "a request that can never be met (n_requested > library) may return fewer rows",
         "-inf likelihood next to a finite one may be treated either as ratio 0 or as a failure (raise); NaN must raise",
     ]
-    return chk.finish()
+    return chk.finish(run_case)
 
 
 def replay(doc):
